@@ -241,9 +241,18 @@ func (p *Plugin) getMessagesObservation(
 		return exectypes.Observation{}, fmt.Errorf("unable to process token data %w", err1)
 	}
 
-	costlyMessages, err := p.costlyMessageObserver.Observe(ctx, messageObs.Flatten(), messageTimestamps)
+	// Costly messages are priced with destination chain data (LINK price, fee components): only nodes that
+	// support the destination observe them, the others still observe the messages of the chains they read.
+	supportsDest, err := p.supportsDestChain()
 	if err != nil {
-		return exectypes.Observation{}, fmt.Errorf("unable to observe costly messageObs %w", err)
+		return exectypes.Observation{}, fmt.Errorf("unable to determine if the destination chain is supported: %w", err)
+	}
+	var costlyMessages []cciptypes.Bytes32
+	if supportsDest {
+		costlyMessages, err = p.costlyMessageObserver.Observe(ctx, messageObs.Flatten(), messageTimestamps)
+		if err != nil {
+			return exectypes.Observation{}, fmt.Errorf("unable to observe costly messageObs %w", err)
+		}
 	}
 
 	observation.CommitReports = commitReportCache
